@@ -7,12 +7,15 @@ pub open spec fn c_holds(c: Constraint, env: Env) -> bool {
         match (sem(c.lhs, env), sem(c.rhs, env)) { (Some(l), Some(r)) => cmp_sem(c.constraint_type, l, r), _ => false }
     }
 }
+// every numeric literal of a queued constraint is finite (C08: no NaN / infinity reaches the linear model)
+pub open spec fn c_fin(c: Constraint) -> bool { exp_fin(c.lhs) && exp_fin(c.rhs) }
 // structural invariant of the context
 #[verifier::opaque]
 pub open spec fn lz_inv(l: Linearizer) -> bool {
     &&& l.domain.wf() && box_wf(l.bounds)
     &&& forall|k: Seq<char>| #[trigger] l.domain.has(k) <==> #[trigger] l.bounds.variable_bounds.has(k)
     &&& forall|k: Seq<char>| #[trigger] l.domain.has(k) ==> vt_wf(l.domain.map()[k].as_type)
+    &&& forall|c: Constraint| #[trigger] l.constraints@.contains(c) ==> c_fin(c)
 }
 // env satisfies everything the context currently demands
 #[verifier::opaque]
